@@ -118,7 +118,7 @@ from ..ast import (
     Zip,
 )
 from ..function import Function
-from ..types import ListType, TupleType, Type
+from ..types import ListType, TupleType, Type, VarType
 from ..utils import Unionfind
 from .define_use import DefineUse, DefineUseAnalysis
 from .reaching_defs import AssignDef, Definition, PhiDef, same_object_defs
@@ -153,6 +153,9 @@ def _carries_list(ty: Type | None) -> bool:
             return True
         case TupleType():
             return any(_carries_list(elt) for elt in ty.elts)
+        case VarType():
+            # an unconstrained type: the caller may pass a list
+            return True
         case _:
             return False
 
